@@ -96,6 +96,8 @@ class Interp:
         self.modular_calls = 0
         self.callee_frames = {}        # simple callee name -> set of argument positions its contract allows it to write
         self.snapshot_yields = True
+        self.lazy_generators = False    # True: generator functions run as coroutines (a value is produced when the consumer asks for it)
+        self.live_gens = []
         self.opacity_events = []
         self.mbqi_fallback_ms = 0
         self.feas_rlimit = int(os.environ.get('PYVC_FEAS_RLIMIT', '100000'))
@@ -611,6 +613,24 @@ class Interp:
             return self.unroll_sseq(st, env, mod, it)
         if isinstance(it, SRange) and not all(isinstance(x, int) for x in (it.start, it.stop, it.step)):
             return self.unroll_srange(st, env, mod, it)
+        if isinstance(it, LazyGen):
+            k = 0
+            while True:
+                x = it.next()
+                if x is LazyGen.STOP:
+                    break
+                self.assign(st.target, x, env, mod)
+                k += 1
+                try:
+                    self.exec_block(st.body, env, mod)
+                except BreakSig:
+                    return
+                except ContinueSig:
+                    pass
+                if k > 100000:
+                    raise Unsupported("loop too long")
+            self.exec_block(st.orelse, env, mod)
+            return
         elems = self.iterate(it, live=True)
         k = 0
         while k < len(elems):           # a list mutated during iteration is seen through (CPython semantics)
@@ -1189,6 +1209,8 @@ class Interp:
             f.is_generator = any(isinstance(n, (ast.Yield, ast.YieldFrom)) for n in _walk_fn(f.node))
         if len(self.frames) > 60:
             raise Unsupported("recursion deeper than 60 frames")
+        if f.is_generator and self.lazy_generators:
+            return LazyGen(self, f, env)
         self.frames.append((f, env, dict(env.vars)))
         line = self.cur_line
         try:
@@ -1213,16 +1235,37 @@ class Interp:
         hook = self.hooks.get("yield")
         if hook is not None:
             hook(self, env, v)
+        ys = env.lookup("__yields__")
+        if isinstance(ys, LazyGen):
+            ys.do_yield(v)                  # coroutine: the consumer runs now and sees the live object, as in CPython
+            return None
         if self.snapshot_yields:
             from . import lib
             v = lib.deep_copy(self, v)      # what the consumer sees at the moment of the yield (generators are run eagerly)
-        env.lookup("__yields__").elems.append(v)
+        ys.elems.append(v)
         return None
 
     def ex_YieldFrom(self, e, env, mod):
         v = self.eval(e.value, env, mod)
-        env.lookup("__yields__").elems.extend(self.iterate(v))
+        ys = env.lookup("__yields__")
+        if isinstance(ys, LazyGen):
+            if isinstance(v, LazyGen):
+                while True:
+                    x = v.next()
+                    if x is LazyGen.STOP:
+                        break
+                    ys.do_yield(x)
+            else:
+                for x in self.iterate(v):
+                    ys.do_yield(x)
+            return None
+        ys.elems.extend(self.iterate(v))
         return None
+
+    def kill_generators(self):
+        for g in self.live_gens:
+            g.close()
+        self.live_gens = []
 
     def instantiate(self, cls, args, kwargs):
         if any(isinstance(b, ExcClass) for b in cls.bases):
@@ -1368,6 +1411,92 @@ class GenResult(PList):
     def __init__(self, elems):
         super().__init__(elems)
         self.pos = 0
+
+
+class GenKill(BaseException):
+    pass
+
+
+class LazyGen:
+    """a generator object run as a coroutine: its body executes in a thread of its own that runs strictly in alternation with the
+    consumer (one of the two is always blocked), so every yielded value is produced when it is asked for and sees the state the consumer
+    left behind - e.g. SNP's inclusion-exclusion tree, whose bounds are tightened while it is being consumed"""
+    STOP = object()
+
+    def __init__(self, it, f, env):
+        import threading
+        self.it, self.f, self.env = it, f, env
+        env.vars["__yields__"] = self
+        self.started = self.done = self.kill = False
+        self.to_gen, self.to_cons = threading.Semaphore(0), threading.Semaphore(0)
+        self.msg = None
+        self.saved_frames = [(f, env, dict(env.vars))]
+        self.thread = None
+        it.live_gens.append(self)
+
+    def _run(self):
+        self.to_gen.acquire()
+        try:
+            if self.kill:
+                raise GenKill()
+            try:
+                self.it.exec_block(self.f.node.body, self.env, self.f.module)
+            except ReturnSig:
+                pass
+            self.msg = ("done",)
+        except GenKill:
+            self.msg = ("done",)
+        except BaseException as e:
+            self.msg = ("exc", e)
+        self.done = True
+        self.to_cons.release()
+
+    def next(self):
+        import threading
+        if self.done:
+            return LazyGen.STOP
+        it = self.it
+        if not self.started:
+            self.started = True
+            self.thread = threading.Thread(target=self._run, daemon=True)
+            self.thread.start()
+        base, line = len(it.frames), it.cur_line
+        it.frames.extend(self.saved_frames)
+        self.to_gen.release()
+        self.to_cons.acquire()
+        self.saved_frames = it.frames[base:]
+        del it.frames[base:]
+        it.cur_line = line
+        if self.msg[0] == "yield":
+            return self.msg[1]
+        if self.msg[0] == "done":
+            return LazyGen.STOP
+        raise self.msg[1]
+
+    def do_yield(self, v):
+        self.msg = ("yield", v)
+        self.to_cons.release()
+        self.to_gen.acquire()
+        if self.kill:
+            raise GenKill()
+
+    def close(self):
+        if self.started and not self.done:
+            self.kill = True
+            self.to_gen.release()
+            self.to_cons.acquire()
+        self.done = True
+        if self.thread is not None:
+            self.thread.join()
+            self.thread = None
+
+    def exhaust(self):
+        out = []
+        while True:
+            x = self.next()
+            if x is LazyGen.STOP:
+                return out
+            out.append(x)
 
 
 class LazyModule:
